@@ -82,6 +82,8 @@ MUTANTS = [
      '                flags.extend(["-M", "att"])', "                pass", "silent-ok"),
     ("c15-long-option-spelling", "C15", "stringify_asm/implementations/gnu_objdump/gnu_objdump_disassembler.py",
      '            section_flags.extend(["-j", section])', '            section_flags.append("--section=" + section)', "silent-ok"),
+    ("c15-shell-joined-command", "C15", "stringify_asm/implementations/shell_disassembler.py",
+     "                [self.program] + self.flags + [input_file],\n", "                \" \".join([self.program] + self.flags + [input_file]),\n                shell=True,\n", "detect"),
     # ------------------------------------------------------------------ C20
     ("c20-all-matches-inverted", "C20", "main.py", "    if args.all_matches:", "    if not args.all_matches:", "detect"),
     ("c20-binary-arg-on-assembly-path", "C20", "main.py", "            input_file = args.assembly", "            input_file = args.binary or args.assembly", "silent-ok"),
